@@ -50,12 +50,21 @@ for d, _, fs in os.walk(os.path.join(ROOT, "theories")):
 for b in bad:
     print(b)
 if "--coqchk" in sys.argv:
+    # one coqchk process per property file (4 at a time); each re-checks the file and everything it depends on
+    from concurrent.futures import ThreadPoolExecutor
     vos = sorted(f[:-3] for f in os.listdir(os.path.join(ROOT, "theories", "Props")) if f.endswith(".vo"))
-    cmd = ["coqchk", "-silent", "-o", "-Q", os.path.join(ROOT, "theories"), "UPV"] + ["UPV.Props." + v for v in vos]
-    print(" ".join(cmd))
-    r = subprocess.run(cmd, stdout=subprocess.PIPE, stderr=subprocess.STDOUT, text=True, timeout=7200)
-    print(r.stdout[-6000:])
-    if r.returncode != 0:
-        bad.append("coqchk failed")
+
+    def one(v):
+        cmd = ["coqchk", "-silent", "-o", "-Q", os.path.join(ROOT, "theories"), "UPV", "UPV.Props." + v]
+        r = subprocess.run(cmd, stdout=subprocess.PIPE, stderr=subprocess.STDOUT, text=True, timeout=7200)
+        ax = r.stdout.split("* Axioms:", 1)[1].split("* Constants", 1)[0].strip() if "* Axioms:" in r.stdout else "?"
+        return v, r.returncode, " ".join(ax.split()), r.stdout[-400:]
+
+    with ThreadPoolExecutor(max_workers=4) as ex:
+        for v, rc, ax, tail in ex.map(one, vos):
+            print("coqchk UPV.Props.%s: rc=%d axioms=%s" % (v, rc, ax))
+            if rc != 0:
+                print(tail)
+                bad.append("coqchk failed on " + v)
 print("audit: %d problem(s)" % len(bad))
 sys.exit(1 if bad else 0)
